@@ -809,7 +809,7 @@ abbrev FlagRecDiag (rec : FlagRec) : Prop :=
   ∀ pf chain st d ok st', rec pf chain st = (.done d ok, st') →
     (d.reason.kind = .error ∨ ok = false) → Diag pf.key ok st st'
 
-theorem findFlag_key {s : Store} {k : String} {pf : Flag} (h : s.findFlag k = some pf) :
+theorem findFlag_key_sl {s : Store} {k : String} {pf : Flag} (h : s.findFlag k = some pf) :
     pf.key = k := by
   have := List.find?_some h
   simpa using this
@@ -853,7 +853,7 @@ theorem prereqLoop_diag {rec : FlagRec} {env : Env} (hl : env.opts.logger = true
             show l.flagKey ∈ st2.flagLookups.drop st.flagLookups.length
             rcases hl4 with hl4 | ⟨_, hl4⟩
             · obtain ⟨t, ht⟩ := hfl
-              rw [← ht, List.append_assoc, List.drop_left, hl4, findFlag_key hfind]
+              rw [← ht, List.append_assoc, List.drop_left, hl4, findFlag_key_sl hfind]
               exact List.mem_cons_self
             · refine mem_drop_of_le ?_ hl4
               show st.flagLookups.length ≤ (st.flagLookups ++ [p.key]).length
